@@ -252,6 +252,14 @@ func (c *panicClient) dischargeIndex(e *Engine, st *State, base, idx ast.Expr) (
 				if l.Key != nil && objOf(info, l.Key) == o && sameExpr(info, l.X, base) && !resizes(info, l.Body, base) {
 					found = true
 				}
+				// base := make([]T, len(X)); for i := range X { base[i] = ... }
+				if l.Key != nil && objOf(info, l.Key) == o && !resizes(info, l.Body, base) && !resizes(info, l.Body, l.X) {
+					if mk, ok := e.P.DefExpr(base).(*ast.CallExpr); ok && IsBuiltinCall(info, mk, "make") && len(mk.Args) >= 2 {
+						if ln, ok := e.P.DefExpr(mk.Args[1]).(*ast.CallExpr); ok && IsBuiltinCall(info, ln, "len") && len(ln.Args) == 1 && sameExpr(info, ln.Args[0], l.X) {
+							found = true
+						}
+					}
+				}
 			}
 			return !found
 		})
